@@ -13,7 +13,7 @@ import warnings
 import wn
 from wn import lmf
 
-from .. import env, runner, docgen, docs, xmlw, observe, routes
+from .. import env, runner, docgen, docs, xmlw, observe, routes, mk
 from ..refmodel import diff
 
 PROP = 'C07'
@@ -64,6 +64,13 @@ def documents():
         'v1.0': ({'lmf_version': '1.0', 'lexicons': [docs.maximal('1.0')]}, []),
         # an extension whose base is missing is skipped as a whole - and nothing else is
         'skip-mix': ({'lmf_version': v, 'lexicons': [docs.extension(v, docs.maximal(v, lid='nb'), lid='xq'), S, T]}, []),
+        # ... also an extension of that skipped extension, listed after it in the same file
+        'skip-chain': ({'lmf_version': v, 'lexicons': [
+            docs.extension(v, docs.maximal(v, lid='nb'), lid='xq'),
+            mk.lexicon('xr', '1', 'en', 'extension of the skipped extension', extends={'id': 'xq', 'version': '3'},
+                       entries=[mk.entry('xr-e1', 'chain', 'n', senses=[mk.sense('xr-s1', 'xr-ss1')])],
+                       synsets=[mk.synset('xr-ss1', 'n', '')]),
+            S, T]}, []),
         'skip-mix-ref': ({'lmf_version': v, 'lexicons': [S, T]}, []),
         # two versions of one lexicon id (independent packages of one collection): which of them is "the most
         # recently added" is observable through a bare-id specifier
@@ -240,7 +247,7 @@ def _reference(docname, d):
             f = env.write_file('ref.xml', boundary_doc(65536, int(docname.split('-')[1]), 'multi', 'lines').encode('ascii'), d)
             env.add_resource(lmf.load(f, progress_handler=None))
         else:
-            resource, pre = documents()['skip-mix-ref' if docname == 'skip-mix' else docname]
+            resource, pre = documents()['skip-mix-ref' if docname in ('skip-mix', 'skip-chain') else docname]
             for i, p in enumerate(pre):
                 env.add(env.write_file(f'refpre{i}.xml', xmlw.serialize(p), d))
             env.add(env.write_file('ref.xml', xmlw.serialize(resource), d))
